@@ -848,6 +848,9 @@ class Exec(Engine):
                 # facts learnt while evaluating the operand hold under its guard
                 for c in s2.pc[len(s.pc) + 1:]:
                     s.assume(IMPL(go, c))
+                if isinstance(v, VBool) and isinstance(v2, VBool):
+                    # plain booleans: a real conjunction / disjunction (kept splittable, friendlier to the solvers)
+                    return [(s, VBool(AND(v.t, v2.t) if is_and else OR(v.t, v2.t)))]
                 return [(s, mk_union([(NOT(go), v), (go, v2)]))]
             if s.spec:
                 raise Unsupported('spec expression with effects: %s' % ast.unparse(node), node)
